@@ -1,10 +1,12 @@
 /-
   Helper lemmas for the function-layer properties (C11 / C12 / C20):
-  truncated remainder on `Int` and on ℝ, the fuel-indexed `erf_impl.rec`, junk constants over ℝ.
+  truncated remainder on `Int` and on ℝ, the fuel-indexed `erf_impl.rec`, junk constants over ℝ,
+  the factorial table `FCACHE` over ℝ, list-sum helpers.
 -/
 import Statrs.Real.Simp
 import Statrs.Gen.R_euclid
 import Statrs.Gen.F_erf
+import Statrs.Gen.F_factorial
 import Mathlib.Tactic
 open Statrs Statrs.Gen
 namespace Statrs.Lemmas.FunctionLayer
@@ -202,5 +204,100 @@ theorem erfrec_zero (n : Nat) (inv : Bool) :
     F.erf.erf_impl.rec (n+1) (0:ℝ) inv = if inv then 1 else 0 := by
   rw [F.erf.erf_impl.rec]
   cases inv <;> norm_num
+
+/-! ### list sums -/
+
+theorem foldl_add_eq_sum {β : Type} (f : β → ℝ) (l : List β) (a : ℝ) :
+    List.foldl (fun acc x => acc + f x) a l = a + (l.map f).sum := by
+  induction l generalizing a with
+  | nil => simp
+  | cons x xs ih => simp only [List.foldl_cons, List.map_cons, List.sum_cons]; rw [ih]; ring
+
+theorem sum_map_range_eq_Icc (g : ℕ → ℝ) (N : ℕ) :
+    ((List.range N).map (fun i => g (i + 1))).sum = ∑ k ∈ Finset.Icc 1 N, g k := by
+  induction N with
+  | zero => simp
+  | succ N ih =>
+    rw [List.range_succ, List.map_append, List.sum_append, ih, Finset.sum_Icc_succ_top (by omega)]
+    simp
+
+
+/-! ### the factorial table `FCACHE` over ℝ -/
+
+/-- loop invariant of the `FCACHE` initialiser: the first `i` slots hold `0! … (i-1)!` -/
+def FcInv (fc : List ℝ) (i : Nat) : Prop :=
+  fc.length = 171 ∧ ∀ j : Nat, j < i → fc[j]? = some (j.factorial : ℝ)
+
+theorem fcache_loop (k : Nat) : ∀ (i : Nat) (fc : List ℝ) (fuel : Nat), 1 ≤ i → i + k = 171 → k < fuel →
+    FcInv fc i → ∃ fc', F.factorial.FCACHE.loop1 (α := ℝ) fuel fc (i : Int) = LoopR.done (fc', 171) ∧ FcInv fc' 171 := by
+  induction k with
+  | zero =>
+    intro i fc fuel hi hik hf hinv
+    obtain ⟨f', rfl⟩ : ∃ f', fuel = f' + 1 := ⟨fuel - 1, by omega⟩
+    have : i = 171 := by omega
+    subst this
+    refine ⟨fc, ?_, hinv⟩
+    unfold F.factorial.FCACHE.loop1
+    simp [F.factorial.MAX_FACTORIAL]
+  | succ k ih =>
+    intro i fc fuel hi hik hf hinv
+    obtain ⟨f', rfl⟩ : ∃ f', fuel = f' + 1 := ⟨fuel - 1, by omega⟩
+    unfold F.factorial.FCACHE.loop1
+    have hlt : (i : Int) < F.factorial.MAX_FACTORIAL (α := ℝ) + 1 := by
+      simp only [F.factorial.MAX_FACTORIAL]; omega
+    rw [if_pos hlt]
+    simp only
+    have hcast : (i : Int) + 1 = ((i + 1 : Nat) : Int) := by push_cast; ring
+    rw [hcast]
+    apply ih (i + 1) _ f' (by omega) (by omega) (by omega)
+    obtain ⟨hlen, hval⟩ := hinv
+    have hnn : ¬ ((i : Int) < 0) := by omega
+    have hnn1 : ¬ ((i : Int) - 1 < 0) := by omega
+    refine ⟨by simp [listSet, hnn, hlen], ?_⟩
+    intro j hj
+    simp only [listSet, if_neg hnn, Int.toNat_natCast]
+    by_cases hji : j = i
+    · subst hji
+      obtain ⟨p, rfl⟩ : ∃ p, j = p + 1 := ⟨j - 1, by omega⟩
+      rw [List.getElem?_set_self (by omega)]
+      simp only [listGet, if_neg hnn1]
+      have h1 : (((p + 1 : Nat) : Int) - 1).toNat = p := by omega
+      have h2 := hval p (by omega)
+      rw [h1, List.getD_eq_getElem?_getD, h2]
+      simp only [Option.getD_some, rfun_ofInt, Nat.factorial_succ]
+      push_cast
+      rw [mul_comm]
+    · rw [List.getElem?_set_ne (by omega)]
+      exact hval j (by omega)
+
+theorem fcache_spec : FcInv (F.factorial.FCACHE (α := ℝ)) 171 := by
+  unfold F.factorial.FCACHE
+  have hN : Int.toNat (F.factorial.MAX_FACTORIAL (α := ℝ) + 1) = 171 := rfl
+  have h0 : FcInv (List.replicate (Int.toNat (F.factorial.MAX_FACTORIAL (α := ℝ) + 1)) (1.0 : ℝ)) 1 := by
+    rw [hN]
+    refine ⟨List.length_replicate, ?_⟩
+    intro j hj
+    have : j = 0 := by omega
+    subst this
+    rw [List.getElem?_replicate, if_pos (by omega)]
+    norm_num
+  obtain ⟨fc', h1, h2⟩ := fcache_loop 170 1 _ loopFuel (by omega) (by omega) (by unfold loopFuel; omega) h0
+  simp only [Nat.cast_one] at h1
+  show FcInv (match F.factorial.FCACHE.loop1 (α := ℝ) loopFuel _ 1 with
+    | LoopR.ret v_ => v_ | LoopR.hang => panicV | LoopR.done (fcache, i) => fcache) 171
+  rw [h1]
+  exact h2
+
+theorem fcache_get (n : Nat) (h : n ≤ 170) :
+    listGet? (F.factorial.FCACHE (α := ℝ)) (n : Int) = some (n.factorial : ℝ) := by
+  have hnn : ¬ ((n : Int) < 0) := by omega
+  simp only [listGet?, if_neg hnn, Int.toNat_natCast]
+  exact fcache_spec.2 n (by omega)
+
+theorem fcache_get_none (x : Int) (h : 170 < x) :
+    listGet? (F.factorial.FCACHE (α := ℝ)) x = none := by
+  have hnn : ¬ (x < 0) := by omega
+  simp only [listGet?, if_neg hnn]
+  rw [List.getElem?_eq_none_iff, fcache_spec.1]; omega
 
 end Statrs.Lemmas.FunctionLayer
